@@ -101,46 +101,58 @@ func H_C02_roundtrip(t int) {
 	vReach("nine-hundred", uint64(n)%1000 >= 900)
 }
 
-// MarshalText / String / fmt verbs follow DefaultFormat and the verb table
+// MarshalText / String / %s follow DefaultFormat; the canonical numeral of a value under given flags is unique,
+// so "canonical for df with value n" pins the exact bytes without formatting twice.
 //
-//verif:harness C02 quick
-func H_C02_paths() {
+//verif:harness C02 quick path=0..2
+func H_C02_paths(path int) {
 	n := Number(vU64("n"))
 	vAssume(n < 2000)
 	df := Format(vU8("df") & 127)
 	save := DefaultFormat
 	DefaultFormat = df
-	want, _ := DefaultFormatter(nil, n, df)
-	mt, merr := n.MarshalText()
-	str := n.String()
-	var sv vState
-	n.Format(&sv, 's')
+	var out []byte
+	var merr error
+	switch path {
+	case 0:
+		out, merr = n.MarshalText()
+	case 1:
+		out = []byte(n.String())
+	case 2:
+		var sv vState
+		n.Format(&sv, 's')
+		out = sv.buf
+	}
 	DefaultFormat = save
-	vAssert("marshaltext", merr == nil && string(mt) == string(want))
-	vAssert("string", str == string(want))
-	vAssert("verb-s", string(sv.buf) == string(want))
+	ok, val := refCanon(out, df)
+	vAssert("canonical-under-DefaultFormat", merr == nil && ok && val == uint64(n))
 	var u Number
-	uerr := u.UnmarshalText(want)
+	uerr := u.UnmarshalText(out)
 	vAssert("unmarshaltext", uerr == nil && u == n)
-	vReach("nonzero", n > 0)
+	vReach("nonzero-lower", n > 0 && df&FormatLowerCase != 0)
 }
 
-//verif:harness C02 quick
-func H_C02_verbs() {
+//verif:harness C02 quick verb=0..3
+func H_C02_verbs(verb int) {
 	n := Number(vU64("n"))
 	vAssume(n < 2000)
-	var sR, sr, sL, sl vState
-	n.Format(&sR, 'R')
-	n.Format(&sr, 'r')
-	n.Format(&sL, 'L')
-	n.Format(&sl, 'l')
-	wR, _ := DefaultFormatter(nil, n, 0)
-	wr, _ := DefaultFormatter(nil, n, FormatLowerCase)
-	wL, _ := DefaultFormatter(nil, n, FormatLong)
-	wl, _ := DefaultFormatter(nil, n, FormatLong|FormatLowerCase)
-	vAssert("R", string(sR.buf) == string(wR))
-	vAssert("r", string(sr.buf) == string(wr))
-	vAssert("L", string(sL.buf) == string(wL))
-	vAssert("l", string(sl.buf) == string(wl))
+	var sv vState
+	var f Format
+	switch verb {
+	case 0:
+		n.Format(&sv, 'R')
+		f = 0
+	case 1:
+		n.Format(&sv, 'r')
+		f = FormatLowerCase
+	case 2:
+		n.Format(&sv, 'L')
+		f = FormatLong
+	case 3:
+		n.Format(&sv, 'l')
+		f = FormatLong | FormatLowerCase
+	}
+	ok, val := refCanon(sv.buf, f)
+	vAssert("verb-format", ok && val == uint64(n))
 	vReach("nonzero", n > 0)
 }
